@@ -1,7 +1,7 @@
 PLAN = dict(
     id="C15",
     pkg="c15", level="exploration",
-    rule=("interleaved: 2-4 decoders (own digest each; honest, truncated or bit-flipped stream) created at drawn points and read alternately with small destination buffers in one goroutine; each must hand out only a prefix of its OWN payload and report clean EOF only after all of it (honest streams must decode). Other sub-checks: one case = honest stream of (draft, rs, payload) built by refmice, ONE mutation (bit flip, truncation, appended suffix, record swap, unit swap / "
+    rule=("interleaved: 2-4 decoders (own digest each; honest, truncated or bit-flipped stream) created at drawn points and read alternately with small destination buffers in one goroutine; each must hand out only a prefix of its OWN payload and report clean EOF only after all of it (honest streams must decode). Other sub-checks: one case = honest stream of (draft, rs, payload) built by refmice (for draft 02 and a payload that is a non-zero multiple of rs also the other legal cut, full records plus an explicit empty final record, which the repository's decoder accepts and its encoder never emits; delivery of that form is not demanded), ONE mutation (bit flip, truncation, appended suffix, record swap, unit swap / "
           "duplication / removal, proof replacement, record-size field edit, re-framing (record-size field edit combined with a cut), splice with the stream of a neighbouring payload, or replacement by an "
           "arbitrary stream), decoded with the honest digest (or an arbitrary 32-octet digest) through a counting source reader and a cycled sequence of "
           "destination-buffer sizes. Oracle: the concatenated output of successive Reads is at every moment a prefix of the committed payload; a clean "
@@ -27,7 +27,7 @@ PLAN = dict(
                 "adversaries are explored only through splices and arbitrary streams."),
     level_note=NOTE_BASE,
     require=[("interleaved", "lifetimes-overlap"), ("exh", "truncate-at-record-boundary"), ("exh", "truncate-at-unit-end"), ("exh", "truncate-after-record-octets"),
-             ("exh", "truncate-before-full-size-last-record"),
+             ("exh", "truncate-before-full-size-last-record"), ("exh", "honest-form:explicit-empty-final-record"), ("rapid", "honest-form:explicit-empty-final-record"),
              ("exh", "reframe-first-unit-as-final-record"), ("rapid", "reframe-first-unit-as-final-record"),
              ("exh", "rejected-at-newdecoder"), ("exh", "error-after-prefix"), ("exh", "error-after-proper-prefix"), ("exh", "clean-eof-full"),
              ("exh", "flip-in-proof"), ("exh", "flip-in-record"), ("exh", "flip-in-size-field"), ("exh", "record-size-out-of-bounds"),
